@@ -523,7 +523,7 @@ class Interp:
         prev_serial = getattr(self, "cur_serial", None)
         self.cur_serial = self._serial
         snap: Optional[State] = None
-        if self._may_need_split(node):
+        if self._may_need_split(node) and not os.environ.get("SA_NOSNAP"):
             snap = st.fork()
         try:
             if isinstance(node, (ast.Return, ast.Assign, ast.Expr, ast.AnnAssign)) and getattr(node, "value", None) is not None:
@@ -532,7 +532,7 @@ class Interp:
                     return self.exec_block(hoisted, st, ctx)
             return m(node, st, ctx)
         except NeedSplit as ns:
-            if snap is None or getattr(self, "_split_depth", 0) >= 8 or decided_by(snap.pc, ns.cond) is not None:
+            if snap is None or getattr(self, "_split_depth", 0) >= 12 or decided_by(snap.pc, ns.cond) is not None:
                 raise AnalysisError(f"value-dependent selection at {ctx.loc(node)} needs a case split this statement is not prepared for")
             other = snap.fork()
             snap.pc.append(ns.cond)
@@ -546,12 +546,12 @@ class Interp:
             self.cur_serial = prev_serial
 
     def _may_need_split(self, node: ast.stmt) -> bool:
-        """Statements that mention itertools.compress are executed on a snapshot-backed state (see NeedSplit)."""
+        """Simple statements that contain a call are executed on a snapshot-backed state (see NeedSplit)."""
         memo = self.__dict__.setdefault("_split_memo", {})
         r = memo.get(id(node))
         if r is None:
-            r = memo[id(node)] = (not isinstance(node, (ast.If, ast.For, ast.While, ast.With, ast.Try, ast.FunctionDef, ast.AsyncFunctionDef, ast.ClassDef, ast.AsyncFor, ast.AsyncWith, ast.Match))
-                                  and any((isinstance(n, ast.Name) and n.id == "compress") or (isinstance(n, ast.Attribute) and n.attr == "compress") for n in ast.walk(node)))
+            r = memo[id(node)] = (not isinstance(node, (ast.If, ast.For, ast.While, ast.With, ast.Try, ast.FunctionDef, ast.AsyncFunctionDef, ast.ClassDef, ast.AsyncFor, ast.AsyncWith, ast.Match, ast.Pass, ast.Break, ast.Continue, ast.Global, ast.Nonlocal, ast.Import, ast.ImportFrom))
+                                  and any(isinstance(n, ast.Call) for n in ast.walk(node)))
         return r
 
     def _hoist_nested_awaits(self, node: Any) -> Optional[List[ast.stmt]]:
@@ -706,9 +706,16 @@ class Interp:
         if ctx.cm is not None:
             if isinstance(y, ast.YieldFrom):
                 raise AnalysisError(f"yield from in a generator context manager at {ctx.loc(y)}")
-            v = self.eval(y.value, st, ctx) if y.value is not None else c(None)
             out: List[Tuple[State, Any]] = []
-            for s, sig in self._flush(st, ctx, y):
+            if y.value is None:
+                for s, sig in self._flush(st, ctx, y):
+                    if sig is not None:
+                        out.append((s, sig))
+                    else:
+                        out.extend(ctx.cm(s, c(None)))
+                return out
+            # the yielded expression stands at statement level: repository calls in it fork the path (as in `return f(x)`)
+            for s, v, sig in self.eval_forking(y.value, st, ctx):
                 if sig is not None:
                     out.append((s, sig))
                 else:
@@ -1978,6 +1985,12 @@ class Interp:
     def _construct(self, ci: ClassInfo, args: List[Term], kwargs: Dict[str, Term], st: State, ctx: Ctx, node: ast.AST) -> List[Outcome]:
         where = ctx.loc(node)
         self.calls_resolved.append((where, ci.key))
+        for k_ in ci.mro():
+            for d_ in getattr(k_.node, "decorator_list", []):
+                nm_ = ast.unparse(d_.func if isinstance(d_, ast.Call) else d_).split(".")[-1]
+                if nm_ not in ("dataclass", "final", "total_ordering", "unique", "runtime_checkable"):
+                    # a class decorator may replace or wrap anything in the class (e.g. __post_init__): not followed
+                    raise AnalysisError(f"class {k_.name} is modified by the decorator @{ast.unparse(d_)[:60]}, which is not modelled (constructed at {where})")
         obj = st.alloc(HeapObj("obj", ci, {}, [], False, "", True))
         init = ci.find_method("__init__")
         if init is not None:
@@ -2061,11 +2074,67 @@ class Interp:
                 st.counters.update(o.state.counters)
             return fm
         val: Optional[Term] = None
+        pre_ids = set(st.heap)          # (objects of different callee paths may carry the same number: judge freshness
+        taken = set(pre_ids)            #  against the caller's heap as it was, and never re-use a number a path used)
+        for o in rets:
+            taken |= set(o.state.heap)
+        merged = self._merge_instances(rets, st, base_pc, pre_ids, taken)
+        if merged is not None:
+            for o in rets:
+                st.counters.update(o.state.counters)
+            return merged
+        if sum(1 for o in rets if isinstance(o.value, tuple) and o.value[:1] == ("obj",) and o.value[1] not in pre_ids) >= 2:
+            # different fresh objects on different paths: as a value that would be a choice between objects, which every
+            # later use multiplies; the statement is re-executed once per deciding guard instead (a fork, as for a
+            # call that stands at statement level)
+            if len(rets) > 4:
+                # many paths, each with its own version of a collection built in the callee (a loop that adds members
+                # under value-dependent tests): when every version is a plain set / list of members of one enum, the
+                # result is "some collection of members of that enum" - a typed unknown, not an un-modelled value
+                kinds, enums = set(), set()
+                for o in rets:
+                    ho_ = o.state.heap.get(o.value[1]) if isinstance(o.value, tuple) and o.value[:1] == ("obj",) else None
+                    if ho_ is None or ho_.symbolic or ho_.cls is not None or ho_.kind not in ("set", "list") or ho_.name.startswith(("gen:", "iter:", "memo:")):
+                        kinds.add("?")
+                        break
+                    kinds.add(ho_.kind)
+                    for it_ in ho_.items:
+                        enums.add(it_[1].cls if isinstance(it_, tuple) and it_[:1] == ("enum",) else "?")
+                if os.environ.get("SA_DBGJOIN"):
+                    print("JOIN", kinds, enums, [type(o.value).__name__ for o in rets[:2]], [ (o.state.heap.get(o.value[1]).kind, o.state.heap.get(o.value[1]).symbolic, o.state.heap.get(o.value[1]).name) for o in rets[:2] if o.value[:1]==("obj",)])
+                if len(kinds) == 1 and "?" not in kinds and len(enums) == 1 and "?" not in enums:
+                    for o in rets:
+                        st.counters.update(o.state.counters)
+                    return self.materialise(("sym", st.fresh("members"), (kinds.pop(), ("enum", enums.pop()))), st)
+                return top("callee returns distinct fresh objects on many paths")
+            for o in rets:
+                for g in o.state.pc[base_pc:]:
+                    if _is_cond(g) and decided_by(st.pc, g) is None:
+                        raise NeedSplit(g)
+        def has_fresh(x: Any, depth: int = 0) -> bool:
+            if not isinstance(x, tuple) or not x or depth > 6:
+                return False
+            if x[0] == "obj":
+                return x[1] not in pre_ids
+            if x[0] in ("tuple", "clist", "cset"):
+                return any(has_fresh(y, depth + 1) for y in x[1])
+            if x[0] == "ite":
+                return has_fresh(x[2], depth + 1) or has_fresh(x[3], depth + 1)
+            return False
+
         for o in reversed(rets):
             ov = o.value
-            if isinstance(ov, tuple) and ov and ov[0] == "obj" and ov[1] not in st.heap:
+            if has_fresh(ov):
                 # a fresh object returned on one of several paths: re-create it in the caller's heap
-                ov2 = self._transplant(ov, o.state, st, {})
+                hold = [k for k in taken if k not in st.heap]
+                for k in hold:
+                    st.heap[k] = None  # type: ignore[assignment]
+                try:
+                    ov2 = self._transplant(ov, o.state, st, {}, pre_ids)
+                finally:
+                    for k in hold:
+                        if st.heap.get(k) is None:
+                            del st.heap[k]
                 if ov2 is None:
                     return top("callee returns distinct fresh objects on several paths")
                 ov = ov2
@@ -2079,12 +2148,79 @@ class Interp:
         assert val is not None
         return val
 
-    def _transplant(self, v: Term, src: State, dst: State, seen: Dict[int, Term]) -> Optional[Term]:
+    def _deep(self, v: Any, state: State, pre_ids: set, depth: int = 0) -> Any:
+        """Content of a value with the identities of objects created by the callee abstracted away (for comparison across paths)."""
+        if not isinstance(v, tuple) or not v:
+            return v
+        if v[0] == "obj":
+            if v[1] in pre_ids:
+                return v
+            ho = state.heap.get(v[1])
+            if ho is None or depth > 5:
+                return ("?", id(v))
+            return ("fresh", ho.kind, ho.cls.key if ho.cls else None, ho.symbolic, ho.name,
+                    tuple(sorted(((k, self._deep(x, state, pre_ids, depth + 1)) for k, x in ho.fields.items()), key=lambda kv: kv[0])),
+                    tuple(self._deep(x, state, pre_ids, depth + 1) for x in ho.items))
+        if v[0] in ("func", "bound", "lambda", "class", "enum", "c"):
+            return v
+        return tuple(self._deep(x, state, pre_ids, depth + 1) for x in v)
+
+    def _merge_instances(self, rets: List[Outcome], st: State, base_pc: int, pre_ids: set, taken: set) -> Optional[Term]:
+        """Several callee paths each return an instance of the same repository class created in the call (a constructor
+        whose __post_init__ branches): ONE instance whose every field is the choice, by the paths' guards, of that
+        field's values.  Fields that hold callee-created objects must have the same content on every path."""
+        vals = [o.value for o in rets]
+        if not all(isinstance(v, tuple) and v[:1] == ("obj",) and v[1] not in pre_ids for v in vals):
+            return None
+        hos = [o.state.heap.get(v[1]) for o, v in zip(rets, vals)]
+        if any(h is None or h.kind != "obj" or h.cls is None or h.symbolic or h.items for h in hos):
+            return None
+        if len({h.cls.key for h in hos}) != 1 or len({tuple(sorted(h.fields)) for h in hos}) != 1:
+            return None
+        hold = [k for k in taken if k not in st.heap]
+        for k in hold:
+            st.heap[k] = None  # type: ignore[assignment]
+        try:
+            fields: Dict[str, Term] = {}
+            for name in hos[0].fields:
+                per = [h.fields[name] for h in hos]
+                deep = [self._deep(x, o.state, pre_ids) for x, o in zip(per, rets)]
+                if all(d == deep[0] for d in deep[1:]):
+                    t0 = self._transplant(per[0], rets[0].state, st, {}, pre_ids)
+                    if t0 is None:
+                        return None
+                    fields[name] = t0
+                    continue
+                if any(self._has_fresh_marker(d) for d in deep):
+                    return None          # different callee-created objects in one field
+                val: Optional[Term] = None
+                for o, x in reversed(list(zip(rets, per))):
+                    val = x if val is None else ite(conj(o.state.pc[base_pc:]), x, val)
+                assert val is not None
+                fields[name] = val
+        finally:
+            for k in hold:
+                if st.heap.get(k) is None:
+                    del st.heap[k]
+        h0 = hos[0]
+        return st.alloc(HeapObj("obj", h0.cls, fields, [], False, h0.name, h0.fresh))
+
+    @staticmethod
+    def _has_fresh_marker(d: Any) -> bool:
+        if isinstance(d, tuple):
+            if d[:1] == ("fresh",) or d[:1] == ("?",):
+                return True
+            return any(Interp._has_fresh_marker(x) for x in d)
+        return False
+
+    def _transplant(self, v: Term, src: State, dst: State, seen: Dict[int, Term], keep: Optional[set] = None) -> Optional[Term]:
         """Copy the heap objects reachable from v (allocated by a callee path) into dst under new identities."""
         if not isinstance(v, tuple) or not v:
             return v
         if v[0] == "obj":
             oid = v[1]
+            if keep is not None and oid in keep:
+                return v          # an object the caller already had keeps its identity
             if oid in dst.heap and dst.heap[oid] is src.heap.get(oid):
                 return v
             if oid in seen:
@@ -2096,29 +2232,29 @@ class Interp:
             ref = dst.alloc(cp)
             seen[oid] = ref
             for k, x in list(cp.fields.items()):
-                y = self._transplant(x, src, dst, seen)
+                y = self._transplant(x, src, dst, seen, keep)
                 if y is None:
                     return None
                 cp.fields[k] = y
             new_items = []
             for it in cp.items:
                 if isinstance(it, tuple) and len(it) == 2 and all(isinstance(z, tuple) for z in it) and ho.kind == "dict":
-                    a, b = self._transplant(it[0], src, dst, seen), self._transplant(it[1], src, dst, seen)
+                    a, b = self._transplant(it[0], src, dst, seen, keep), self._transplant(it[1], src, dst, seen, keep)
                     if a is None or b is None:
                         return None
                     new_items.append((a, b))
                 else:
-                    y = self._transplant(it, src, dst, seen)
+                    y = self._transplant(it, src, dst, seen, keep)
                     if y is None:
                         return None
                     new_items.append(y)
             cp.items = new_items
             return ref
         if v[0] in ("tuple", "clist", "cset"):
-            xs = [self._transplant(x, src, dst, seen) for x in v[1]]
+            xs = [self._transplant(x, src, dst, seen, keep) for x in v[1]]
             return None if any(x is None for x in xs) else (v[0], tuple(xs))
         if v[0] == "ite":
-            a, b = self._transplant(v[2], src, dst, seen), self._transplant(v[3], src, dst, seen)
+            a, b = self._transplant(v[2], src, dst, seen, keep), self._transplant(v[3], src, dst, seen, keep)
             return None if a is None or b is None else ("ite", v[1], a, b)
         return v
 
@@ -2138,17 +2274,138 @@ class Interp:
         busy.add(key)
         val: Optional[Term] = None
         try:
-            st = State()
-            ctx = Ctx(None, mod, 0)
-            v = self.eval(mod.constants[name], st, ctx)
-            if not st.events and not st.pending and not st.pc:
-                val = self.reify(v, st)
-        except (AnalysisError, Unsupported, KeyError, IndexError, TypeError):
+            muts = self._module_name_mutations(mod, name)
+            if muts is not None:
+                val = self._replay_import(mod, name, muts) if muts != "unknown" else None
+            else:
+                st = State()
+                ctx = Ctx(None, mod, 0)
+                v = self.eval(mod.constants[name], st, ctx)
+                if not st.events and not st.pending and not st.pc:
+                    val = self.reify(v, st)
+        except (AnalysisError, Unsupported, NeedSplit, KeyError, IndexError, TypeError):
             val = None
         finally:
             busy.discard(key)
+            self._replay_globals = {}
         cache[key] = val
         return val
+
+    # -- module-level containers filled at import time (registries) ---------------------------------------------
+    # `_BUILDERS = {}` followed by `@_builds(key) def f(...)` / `_BUILDERS[k] = f` / `register(k, f)` at the top level
+    # of the module: the container's content after import is obtained by replaying exactly those top-level statements
+    # in order.  That is its value at every later call only if nothing else ever mutates it: every mutation site
+    # must sit in a top-level statement or in a helper function that is referenced from top-level statements /
+    # decorators only (and from no other module).  Otherwise the name stays an un-modelled module variable (opaque).
+    def _module_name_mutations(self, mod: Module, name: str) -> Any:
+        """None: the module-level name is never mutated in place.  "unknown": mutated in a way that is not followed.
+        Otherwise the set of top-level helper function names that contain a mutation site ('' = a top-level statement)."""
+        memo = self.__dict__.setdefault("_modmut_memo", {})
+        key = (mod.name, name)
+        if os.environ.get("SA_NOREPLAY"):
+            return None
+        if key in memo:
+            return memo[key]
+
+        def mutates(n: ast.AST) -> bool:
+            def is_name(e: ast.AST) -> bool:
+                return isinstance(e, ast.Name) and e.id == name
+            if isinstance(n, (ast.Assign, ast.Delete)):
+                return any(isinstance(t, ast.Subscript) and is_name(t.value) for t in n.targets)
+            if isinstance(n, ast.AugAssign):
+                return is_name(n.target) or (isinstance(n.target, ast.Subscript) and is_name(n.target.value))
+            if isinstance(n, ast.Call) and isinstance(n.func, ast.Attribute) and n.func.attr in self._MUTATORS:
+                return is_name(n.func.value)
+            return False
+
+        helpers: set = set()
+        res: Any = None
+        for top in mod.tree.body:
+            if not any(mutates(n) for n in ast.walk(top)):
+                continue
+            if isinstance(top, (ast.FunctionDef, ast.AsyncFunctionDef)):
+                if any(isinstance(n, (ast.Global, ast.Nonlocal)) for n in ast.walk(top)) or name in {a.arg for a in ast.walk(top) if isinstance(a, ast.arg)}:
+                    res = "unknown"
+                    break
+                helpers.add(top.name)
+            elif isinstance(top, ast.ClassDef):
+                res = "unknown"
+                break
+            else:
+                helpers.add("")
+        if res is None and helpers:
+            res = helpers
+            # the helpers are import-time tools only
+            for h in helpers - {""}:
+                for top in mod.tree.body:
+                    inner = list(ast.walk(top))
+                    if isinstance(top, (ast.FunctionDef, ast.AsyncFunctionDef, ast.ClassDef)):
+                        decos = {id(x) for d in top.decorator_list for x in ast.walk(d)}
+                        if any(isinstance(n, ast.Name) and n.id == h and id(n) not in decos for n in inner):
+                            res = "unknown"
+                for other in self.prog.all_modules(True):
+                    if other is not mod and any(v == (mod.name, h) or v == (mod.name, name) for v in getattr(other, "imports", {}).values()):
+                        res = "unknown"
+        elif res is None:
+            for other in self.prog.all_modules(True):
+                if other is not mod and any(v == (mod.name, name) for v in getattr(other, "imports", {}).values()):
+                    alias = [k for k, v in other.imports.items() if v == (mod.name, name)]
+                    for n in ast.walk(other.tree):
+                        for a_ in alias:
+                            saved, name_ = name, a_
+                            if (isinstance(n, (ast.Assign, ast.Delete)) and any(isinstance(t, ast.Subscript) and isinstance(t.value, ast.Name) and t.value.id == a_ for t in n.targets)) or \
+                               (isinstance(n, ast.Call) and isinstance(n.func, ast.Attribute) and n.func.attr in self._MUTATORS and isinstance(n.func.value, ast.Name) and n.func.value.id == a_):
+                                res = "unknown"
+        memo[key] = res
+        return res
+
+    def _replay_import(self, mod: Module, name: str, helpers: set) -> Optional[Term]:
+        st = State()
+        ctx = Ctx(None, mod, 0)
+        key = (mod.name, name)
+        self._replay_globals = {}
+        hs = helpers - {""}
+
+        def mentions(e: ast.AST, names: set) -> bool:
+            return any(isinstance(n, ast.Name) and n.id in names for n in ast.walk(e))
+
+        for top in mod.tree.body:
+            if isinstance(top, (ast.Assign, ast.AnnAssign)) and (top.targets[0] if isinstance(top, ast.Assign) else top.target) is not None:
+                tgt = top.targets[0] if isinstance(top, ast.Assign) else top.target
+                if isinstance(tgt, ast.Name) and tgt.id == name and (not isinstance(top, ast.Assign) or len(top.targets) == 1):
+                    if top.value is None:
+                        return None
+                    v = self.eval(top.value, st, ctx)
+                    if not (isinstance(v, tuple) and v[:1] == ("obj",) and st.heap[v[1]].kind in ("dict", "list", "set") and not st.heap[v[1]].symbolic):
+                        return None
+                    self._replay_globals[key] = v
+                    continue
+            if isinstance(top, (ast.FunctionDef, ast.AsyncFunctionDef, ast.ClassDef)):
+                if not any(mentions(d, hs) for d in top.decorator_list):
+                    continue
+                if key not in self._replay_globals or len(top.decorator_list) != 1:
+                    return None
+                obj: Term = ("func", mod.functions[top.name]) if not isinstance(top, ast.ClassDef) else ("class", mod.classes[top.name])
+                d = self.eval(top.decorator_list[0], st, ctx)
+                out = self.call(d, [obj], {}, st, ctx, top.decorator_list[0])
+                if out != obj:
+                    return None          # the decorator replaces the function: the module-level name is not the def
+                continue
+            if mentions(top, hs | {name}) and not isinstance(top, (ast.Import, ast.ImportFrom)):
+                touches = any(isinstance(n, ast.Name) and n.id in hs and isinstance(n.ctx, ast.Load) for n in ast.walk(top)) or \
+                    any((isinstance(n, (ast.Assign, ast.Delete)) and any(isinstance(t, ast.Subscript) and isinstance(t.value, ast.Name) and t.value.id == name for t in n.targets))
+                        or (isinstance(n, ast.Call) and isinstance(n.func, ast.Attribute) and n.func.attr in self._MUTATORS and isinstance(n.func.value, ast.Name) and n.func.value.id == name)
+                        or (isinstance(n, ast.AugAssign)) for n in ast.walk(top))
+                if not touches:
+                    continue          # only reads it (another table derived from it is evaluated on its own)
+                if key not in self._replay_globals:
+                    return None
+                res = self.exec_stmt(top, st, ctx)
+                if len(res) != 1 or res[0][1] is not None or res[0][0] is not st:
+                    return None
+        if key not in self._replay_globals or any(e.kind == "call" for e in st.events) or st.pending or st.pc:
+            return None          # (stores into the container itself are the point; anything observable is not import-time bookkeeping)
+        return self.reify(self._replay_globals[key], st)
 
     def reify(self, v: Term, st: State) -> Optional[Term]:
         t = v[0] if isinstance(v, tuple) and v else None
@@ -2249,7 +2506,12 @@ class Interp:
             return ("enum", r[1])
         if r[0] == "const":
             mod, name = r[1], r[2]
+            rg = getattr(self, "_replay_globals", None)
+            if rg and (mod.name, name) in rg:
+                return rg[(mod.name, name)]          # (import-time replay in progress, see module_const_value)
             try:
+                if self._module_name_mutations(mod, name) is not None:
+                    raise NotConst("filled at import time")
                 return self.lift(self.prog.fold(mod, mod.constants[name]))
             except NotConst:
                 init = mod.constants[name]
@@ -2484,6 +2746,11 @@ class Interp:
                 # calling a coroutine function only creates the coroutine object; its body runs where it is awaited
                 return ("coro", fv, tuple(args), tuple(sorted(kwargs.items())))
             return self.call_user_nested(fv, args, kwargs, st, ctx, node)
+        if t in ("ite", "lookup") and not os.environ.get("SA_NORESOLVE"):
+            # a callable chosen by a condition / from a table: first what the path already knows decides
+            fv2 = self.resolve_choice(fv, st)
+            if fv2 != fv:
+                return self.call(fv2, args, kwargs, st, ctx, node, awaited)
         if t == "ite" and len(fv) == 4 and all(isinstance(x, tuple) and x and x[0] in ("ntmeth", "lambda", "func", "bound", "partialobj", "biometh") for x in fv[2:]):
             # a method picked off a two-way choice of values (`(a if p else b).m()`): the choice of the two results;
             # what one alternative may raise is raised only when it is the one chosen
@@ -2494,7 +2761,7 @@ class Interp:
                 res_.append(self.call(f_, list(args), dict(kwargs), st, ctx, node, awaited))
                 st.pending[n0:] = [(e_, conj([cnd_, c2_]), w_, nev_) for e_, c2_, w_, nev_ in st.pending[n0:]]
             if len(st.events) != n_ev:
-                raise AnalysisError(f"call of a conditionally chosen callable with observable effects at {ctx.loc(node)}")
+                raise NeedSplit(fv[1])       # observable effects: the statement is re-executed once per choice
             return ite(fv[1], res_[0], res_[1])
         if t == "coro" and not args and not kwargs:
             raise AnalysisError(f"coroutine object called at {ctx.loc(node)}")
@@ -2548,13 +2815,57 @@ class Interp:
                 st.pending[n0:] = [(e_, conj([mkcmp("==", fv[2], k), cnd_]), w_, nev_) for e_, cnd_, w_, nev_ in st.pending[n0:]]
                 alts.append((k, r))
             if len(st.events) != n_ev:
-                raise AnalysisError(f"call of a table-selected callable with observable effects at {ctx.loc(node)}")
+                raise NeedSplit(mkcmp("==", fv[2], fv[1][0][0]))      # observable effects: one path per table entry
             return ("lookup", tuple(alts), fv[2])
         if t == "sym" or t == "modvar":
             # call of an opaque callable (user callback, factory...)
             # a user callback / factory is the environment; a module-level object the analyser could not evaluate is not
             return self.external_call(T.show(fv) if t == "sym" else f"{fv[2]}", args, kwargs, st, ctx, node, awaited, opaque=(t == "modvar"))
-        raise AnalysisError(f"call of non-callable {T.show(fv)} at {ctx.loc(node)}")
+        if t == "ite" and len(fv) == 4 and _is_cond(fv[1]) and decided_by(st.pc, fv[1]) is None:
+            raise NeedSplit(fv[1])
+        raise AnalysisError(f"call of non-callable {T.show(fv)[:300]} at {ctx.loc(node)}")
+
+    def resolve_choice(self, v: Term, st: State) -> Term:
+        """`v` specialised to the path: choices whose condition the path decides, table look-ups whose key the path
+        fixes, and what then folds (membership of a constant in constants, choices on constants)."""
+        from .frames import restrict
+
+        def const_like(x: Any) -> bool:
+            return isinstance(x, tuple) and bool(x) and (x[0] in ("c", "enum") or (x[0] == "seq" and len(x) == 3 and all(isinstance(a, tuple) and a[:1] == ("L",) for a in x[2])))
+
+        def fold(x: Any) -> Any:
+            if not isinstance(x, tuple) or not x:
+                return x
+            if x[0] in ("func", "bound", "lambda", "class", "enum", "obj", "c"):
+                return x
+            y = tuple(fold(z) for z in x)
+            if len(y) == 4 and y[0] == "cmp" and y[1] in ("in", "not in") and const_like(y[2]) and isinstance(y[3], tuple) and y[3][:1] == ("tuple",) and all(const_like(k) for k in y[3][1]):
+                r = any(k == y[2] for k in y[3][1])
+                return c(r if y[1] == "in" else not r)
+            if len(y) == 4 and y[0] == "cmp" and y[1] in ("is", "is not", "==", "!=") and const_like(y[2]) and const_like(y[3]) and (y[2][0] == "enum" or y[3][0] == "enum" or (is_c(y[2]) and y[2][1] is None) or (is_c(y[3]) and y[3][1] is None)):
+                r = y[2] == y[3]
+                return c(r if y[1] in ("is", "==") else not r)
+            if len(y) == 4 and y[0] == "ite" and is_c(y[1]) and isinstance(y[1][1], bool):
+                return y[2] if y[1][1] else y[3]
+            if len(y) == 3 and y[0] == "lookup" and const_like(y[2]):
+                for k, val in y[1]:
+                    if k == y[2]:
+                        return val
+            if y[0] == "and":
+                return conj(list(y[1:]))
+            if y[0] == "or":
+                return disj(list(y[1:]))
+            if y[0] == "not" and len(y) == 2 and is_c(y[1]) and isinstance(y[1][1], bool):
+                return c(not y[1][1])
+            return y
+
+        cur = v
+        for _ in range(4):
+            nxt = fold(restrict(cur, list(st.pc)))
+            if nxt == cur:
+                break
+            cur = nxt
+        return cur
 
     def external_call(self, target: str, args: List[Term], kwargs: Dict[str, Term], st: State, ctx: Ctx, node: ast.AST, awaited: bool, result: Optional[Term] = None, opaque: bool = False) -> Term:
         """An observable call the repository does not define.  The result of a call on an environment object
